@@ -4,7 +4,10 @@
 //! validation; structural ops use Gaussian components as carriers of two numbers (mu, sigma).
 #![allow(unused)]
 use crate::wire::*;
-use rv::dist::{Bernoulli, Categorical, Exponential, Gaussian, Laplace, Mixture, Pareto, Poisson, Uniform};
+use rv::dist::{
+    Bernoulli, Categorical, Exponential, Gaussian, InvChiSquared, InvGamma, Laplace, Mixture, Pareto, Poisson, ScaledInvChiSquared,
+    StudentsT, Uniform,
+};
 use rv::traits::*;
 
 fn weights(a: &mut Args) -> Vec<f64> {
@@ -55,6 +58,19 @@ where
     let m = Mixture::new_unchecked(w, cs);
     let mean: Option<f32> = m.mean();
     let var: Option<f32> = m.variance();
+    format!("{} {} {} {}", tok(&mean), tok(&var), opt_list(&cm), opt_list(&cv))
+}
+
+/// f64 moments of a mixture and of its components
+fn f64_moments<Fx>(w: Vec<f64>, cs: Vec<Fx>) -> String
+where
+    Fx: Mean<f64> + Variance<f64> + Clone,
+{
+    let cm: Vec<Option<f64>> = cs.iter().map(|c| Mean::<f64>::mean(c)).collect();
+    let cv: Vec<Option<f64>> = cs.iter().map(|c| Variance::<f64>::variance(c)).collect();
+    let m = Mixture::new_unchecked(w, cs);
+    let mean: Option<f64> = m.mean();
+    let var: Option<f64> = m.variance();
     format!("{} {} {} {}", tok(&mean), tok(&var), opt_list(&cm), opt_list(&cv))
 }
 
@@ -228,6 +244,34 @@ pub fn dispatch(op: &str, _kind: &str, a: &mut Args) -> Option<String> {
         "mix.gauss.entropy" => {
             let m = Mixture::new_unchecked(weights(a), gausses(a));
             tok(&m.entropy())
+        }
+        // ---------------------------------------------------------------- entropies of discrete mixtures
+        "mix.pois.entropy" => {
+            let m = Mixture::new_unchecked(weights(a), poissons(a));
+            tok(&m.entropy())
+        }
+        "mix.bern.entropy" => {
+            let m = Mixture::new_unchecked(weights(a), bernoullis(a));
+            tok(&m.entropy())
+        }
+        "mix.cat.entropy" => {
+            let m = Mixture::new_unchecked(weights(a), categoricals(a));
+            tok(&m.entropy())
+        }
+        // ---------------------------------------------------------------- f64 moments of families whose moments may not exist
+        //   mix.f64.moments - <fam> <W> <params>     fam = studentst (v)* | invgamma (shape scale)* | invchi2 (v)* |
+        //   sinvchi2 (v t2)* | pareto (shape scale)*     answer: <opt mean> <opt var> L<k> (opt cmean) L<k> (opt cvar)
+        "mix.f64.moments" => {
+            let fam = a.tag();
+            let w = weights(a);
+            match fam.as_str() {
+                "studentst" => f64_moments(w, a.list(|a| StudentsT::new_unchecked(a.f()))),
+                "invgamma" => f64_moments(w, a.list(|a| { let sh = a.f(); let sc = a.f(); InvGamma::new_unchecked(sh, sc) })),
+                "invchi2" => f64_moments(w, a.list(|a| InvChiSquared::new_unchecked(a.f()))),
+                "sinvchi2" => f64_moments(w, a.list(|a| { let v = a.f(); let t2 = a.f(); ScaledInvChiSquared::new_unchecked(v, t2) })),
+                "pareto" => f64_moments(w, paretos(a)),
+                _ => "BAD:fam".to_string(),
+            }
         }
         // ---------------------------------------------------------------- f32 moments: <fam> <W> <params>
         //   fam = laplace (mu b)* | unif (a b)* | expon (rate)*      answer: <opt mean32> <opt var32> L<k> cmean L<k> cvar
